@@ -1,9 +1,15 @@
 #!/bin/sh
-# usage: tools/seed_matrix.sh [seed dirs…]  — every seeded change against its own property's quick check
+# usage: [SEEDS="1 2 3"] tools/seed_matrix.sh [seed dirs…]
+# every seeded change against its own property's quick check, once per seed; prints one line per
+# change and seed, and a summary of the changes some seed did not report
 cd "$(dirname "$0")/.."
+miss=0
 for d in ${*:-seeded/C*}; do
   p=$(basename $d | cut -d- -f1)
-  r=$(tools/try_seed.sh "$PWD/$d" $p 2>&1 | grep -E "^(OK|VIOLATION|PATCH)" | head -1)
-  k=$(tools/try_seed.sh "$PWD/$d" $p 2>/dev/null | grep "kind=" | head -1 | cut -c1-150)
-  echo "$(basename $d): $r"
+  out=$(tools/try_seed.sh "$PWD/$d" $p 2>&1 | grep -E "^(OK|VIOLATION|PATCH)")
+  n=$(echo "$out" | grep -c "^VIOLATION")
+  t=$(echo "$out" | grep -c .)
+  echo "$(basename $d): $n/$t $(echo "$out" | grep -v '^VIOLATION' | head -1)"
+  [ "$n" = "$t" ] || miss=$((miss+1))
 done
+echo "changes not reported at every seed: $miss"
